@@ -627,6 +627,108 @@ fn miri_leg(ctx: &Ctx, rep: &mut Report, seeds: usize) {
     rep.add("leg_miri_schedules_completed", schedules_ok);
 }
 
+/// The fixed probe set of the first-call leg: built from the spellers only, so that the probe process has made no
+/// library call before its chosen "first call".
+fn first_call_probes() -> Vec<(usize, u8, String, f64)> {
+    let mut v = Vec::new();
+    for (li, code) in LANGS.iter().enumerate() {
+        for n in [0u64, 7, 21, 80, 101, 1999, 21_000, 1_000_000] {
+            v.push((li, 0u8, spell::cardinal(code, n), 0.0));
+        }
+        v.push((li, 1, format!("{} xyz {} {}", spell::cardinal(code, 3), spell::cardinal(code, 5), spell::cardinal(code, 25)), 10.0));
+        v.push((li, 1, format!("{} {} {}", spell::cardinal(code, 2), spell::info(code).sep, spell::fraction(code, "05").unwrap_or_default()), 0.0));
+        for o in spell::ordinals(code, 22).into_iter().take(2) {
+            v.push((li, 1, o.text, 0.0));
+        }
+        v.push((li, 2, format!("{} , {}", spell::cardinal(code, 1), spell::cardinal(code, 2)), 10.0));
+    }
+    v
+}
+
+/// child entry: `worker c14-first <k> <result_file>`: the k-th variant of "what this process did first", then the probes
+pub fn worker_first(args: &[String]) -> i32 {
+    let k: usize = args.first().and_then(|s| s.parse().ok()).unwrap_or(0);
+    let out = args.get(1).cloned().unwrap_or_default();
+    // the first library calls of this process
+    let first_lang = LANGS[k % 7];
+    let a = if k % 2 == 0 { api::concrete(first_lang) } else { api::facade(first_lang) };
+    let first_text = match k / 7 % 4 {
+        0 => spell::cardinal(first_lang, 21),
+        1 => "xyz qqq".to_string(),
+        2 => super::c03::Input::Big { class: "compound".into(), size: 200 }.materialize(first_lang),
+        _ => spell::ordinals(first_lang, 3).into_iter().next().map(|o| o.text).unwrap_or_default(),
+    };
+    let _ = a.validate(&first_text);
+    let _ = a.replace(&first_text, if k % 3 == 0 { 0.0 } else { 10.0 });
+    // the probes, on fresh interpreters
+    let apis: Vec<Box<dyn Api>> = if k % 2 == 0 { LANGS.iter().map(|c| api::facade(c)).collect() } else { api::all_concrete() };
+    let mut lines: Vec<J> = Vec::new();
+    for (li, kind, text, t) in first_call_probes() {
+        let c = Call { lang: li, kind, text, t };
+        lines.push(J::Str(perform(apis[li].as_ref(), &c)));
+    }
+    let j = jobj! {"k" => k, "first" => format!("{} {:?}", first_lang, first_text.chars().take(40).collect::<String>()), "results" => J::Arr(lines)};
+    match std::fs::write(&out, j.to_string()) {
+        Ok(()) => 0,
+        Err(_) => 3,
+    }
+}
+
+/// first-call leg: K fresh processes whose first library call differs, then the same probes; all must agree
+fn first_call_leg(ctx: &Ctx, rep: &mut Report, n_procs: usize) {
+    let bin = std::env::current_exe().map(|p| p.to_string_lossy().into_owned()).unwrap_or_default();
+    let probes = first_call_probes();
+    let handles: Vec<_> = (0..n_procs)
+        .map(|k| {
+            let bin = bin.clone();
+            let result = format!("{}/harness/target/c14-first-{}-{}.json", ctx.verif_dir, std::process::id(), k);
+            std::thread::spawn(move || {
+                let _ = std::fs::remove_file(&result);
+                let mut c = Command::new(&bin);
+                c.args(["worker", "c14-first", &k.to_string(), &result]);
+                let r = run_child(&mut c, 120);
+                let j = std::fs::read_to_string(&result).ok().and_then(|s| json::parse(&s).ok());
+                let _ = std::fs::remove_file(&result);
+                (k, r, j)
+            })
+        })
+        .collect();
+    let mut reference: Option<(usize, String, Vec<String>)> = None;
+    for h in handles {
+        let (k, r, j) = match h.join() {
+            Ok(x) => x,
+            Err(_) => continue,
+        };
+        let j = match j {
+            Some(j) => j,
+            None => {
+                rep.inconclusive.push(format!("leg=first-call reason=process {} produced no report (exit {:?})", k, r.exit_code));
+                continue;
+            }
+        };
+        let results: Vec<String> = j.get("results").and_then(|a| a.as_arr()).map(|a| a.iter().map(|x| x.as_str().unwrap_or("").to_string()).collect()).unwrap_or_default();
+        let first = j.str_of("first");
+        rep.eval(hash_bytes(&[b"first-call", &[k as u8]]), true);
+        rep.add("first_call_probe_results_compared", results.len() as u64);
+        match &reference {
+            None => reference = Some((k, first, results)),
+            Some((k0, first0, r0)) => {
+                if let Some(i) = (0..results.len().min(r0.len())).find(|&i| results[i] != r0[i]) {
+                    let (li, kind, text, t) = &probes[i];
+                    let c = Call { lang: *li, kind: *kind, text: text.clone(), t: *t };
+                    rep.violation(
+                        "history:first-call",
+                        jobj! {"kind" => "first-call", "k" => k, "k0" => *k0, "call" => call_json(&c)},
+                        format!("{} gives {:?} in a process whose first call was [{}] and {:?} in a process whose first call was [{}]: the result depends on what the process did first", show_call(&c), results[i], first, r0[i], first0),
+                    );
+                } else if results.len() != r0.len() {
+                    rep.inconclusive.push(format!("leg=first-call reason=processes {} and {} returned {} vs {} probe results", k, k0, results.len(), r0.len()));
+                }
+            }
+        }
+    }
+}
+
 fn build_probe(ctx: &Ctx, rep: &mut Report) {
     let dir = match std::env::var("T2N_PROBE_DIR") {
         Ok(d) if !d.is_empty() => d,
@@ -720,6 +822,7 @@ pub fn run(ctx: &Ctx) -> Outcome {
     for round in 0..(if q { 4 } else { 16 }) {
         guarded(&mut rep, "contention", |r| contention_workload(ctx.seed.wrapping_add(round), nt, ctx.n(12_000, 60_000) as usize, r));
     }
+    first_call_leg(ctx, &mut rep, if q { 14 } else { 56 });
     build_probe(ctx, &mut rep);
     silence_leg(ctx, &mut rep);
     // Miri: data races and UB on the shared interpreters are visible without volume (2 seeded schedules in the quick
@@ -737,7 +840,7 @@ pub fn run(ctx: &Ctx) -> Outcome {
         let mut rng = Rng::derive(ctx.seed, "C14-threads", 0);
         J::Arr(make_script(&mut rng, &ls, 6, true).iter().map(call_json).collect())
     }});
-    let rule = "cases = API calls (text2digits / replace_numbers_in_text / find_numbers at thresholds 0,3,10) from scripts aimed at carried state (failing validations next to valid ones, the same text at different thresholds, annotator-state texts, long compounds, alternating languages); (1) one long-lived interpreter set vs a second one for every call and vs a freshly built interpreter for every 20th/50th call; (2) N threads replay pre-computed scripts on the same shared facade and concrete interpreter values, every result compared with the sequential reference, overlap measured by an in-flight counter; thorough: the same thread workload under ThreadSanitizer (-Zbuild-std), AddressSanitizer and Miri (3 threads, seeded schedules); (3) Send+Sync build probe; (4) a worker process with piped stdout/stderr applies every lexicon word in 7 digit states, converts the C01/C04/C05 corpora and runs the C03 hostile mix (degenerate, multi-byte, large inputs, hinted streams) through every entry point: zero bytes expected; non-trivial = every compared call";
+    let rule = "cases = API calls (text2digits / replace_numbers_in_text / find_numbers at thresholds 0,3,10) from scripts aimed at carried state (failing validations next to valid ones, the same text at different thresholds, annotator-state texts, long compounds, alternating languages); (1) one long-lived interpreter set vs a second one for every call and vs a freshly built interpreter for every 20th/50th call; (2) N threads replay pre-computed scripts on the same shared facade and concrete interpreter values, every result compared with the sequential reference, overlap measured by an in-flight counter; thorough: the same thread workload under ThreadSanitizer (-Zbuild-std), AddressSanitizer and Miri (3 threads, seeded schedules); (2b) fresh processes whose first library call differs (language, word kind, access path) run the same probe calls afterwards and must all agree (process-wide lazily initialised state); (3) Send+Sync build probe; (4) a worker process with piped stdout/stderr applies every lexicon word in 7 digit states, converts the C01/C04/C05 corpora and runs the C03 hostile mix (degenerate, multi-byte, large inputs, hinted streams) through every entry point: zero bytes expected; non-trivial = every compared call";
     finish(
         ctx,
         rep,
